@@ -682,7 +682,7 @@ static void run_script(const string &script)
 		bool api = true;
 		int saved_errno = 0;
 
-		static const std::set<string> cfg_cmds = {"free", "errfunc", "searchpath", "parse_buf", "parse_fp", "parse_file", "setint",
+		static const std::set<string> cfg_cmds = {"free", "errfunc", "searchpath", "parse_buf", "parse_fp", "parse_fp_fail", "parse_file", "setint",
 			"setfloat", "setbool", "setstr", "setlist", "addlist", "setmulti", "osetmulti", "setopt", "setcomment", "addtsec",
 			"rmsec", "rmnsec", "rmtsec", "getopt", "getnopt", "getsec", "getnsec", "gettsec", "size", "getint", "getfloat",
 			"getbool", "getstr", "getcomment", "title", "setvalidate", "setvalidate2", "printfunc", "filter", "filterk", "dump", "print", "roundtrip",
@@ -822,6 +822,35 @@ static void run_script(const string &script)
 			saved_errno = errno;
 			fclose(fp);
 			o += ",\"rc\":" + jnum(rc) + ",\"line\":" + jnum(cfg ? cfg->line : -1);
+		} else if (c == "parse_fp_fail") {
+			// parse_fp_fail h text n : stream that delivers the first n bytes of text and then fails with EIO
+			Arg s = A(2);
+			cfg_t *cfg = hcfg(N(1));
+			struct Cookie { const char *p; size_t left; };
+			Cookie ck = {s.s.data(), (size_t)N(3) < s.s.size() ? (size_t)N(3) : s.s.size()};
+			cookie_io_functions_t io = {};
+			io.read = [](void *c, char *buf, size_t n) -> ssize_t {
+				Cookie *k = (Cookie *)c;
+				if (!k->left) {
+					errno = EIO;
+					return -1;
+				}
+				if (n > k->left)
+					n = k->left;
+				memcpy(buf, k->p, n);
+				k->p += n;
+				k->left -= n;
+				return (ssize_t)n;
+			};
+			FILE *fp = fopencookie(&ck, "r", io);
+			apply_errno();
+			int rc = cfg_parse_fp(cfg, fp);
+			saved_errno = errno;
+			fclose(fp);
+			o += ",\"rc\":" + jnum(rc) + ",\"line\":" + jnum(cfg ? cfg->line : -1);
+		} else if (c == "mkfifo") {
+			o += ",\"rc\":" + jnum(mkfifo(A(1).s.c_str(), 0666));
+			api = false;
 		} else if (c == "parse_file") {
 			Arg s = A(2);
 			cfg_t *cfg = hcfg(N(1));
